@@ -19,6 +19,7 @@ RULE = (
     ' Also: fixed boundary-size simulations (2**8, 2**15, 2**16 (+60) sample names or conditions, the last names in held-out experiments only).'
     ' Also: sparse designs with names x doses above 2**32 (100k x 100k names and doses, 300k experiments; thorough larger) and with exactly 2**16 doses; one history in forty has 25..45 operations.'
     " Fixed cases pass the stages' archives through other interpreter processes (saveload_xproc)."
+    " Operation cli_train: the train_model command on a stage against a direct training on its observed part with the stage's ids."
 )
 ASSUMPTIONS = [
     "the prepared simulation is the pair returned by the hold-out split of the parent; stored values are in (0,1] so reveals are accepted",
@@ -32,7 +33,7 @@ def budgets(tier):
     return {"examples": 1500, "max_s": 700, "shrink_s": 90, "shards": 16}
 
 
-OPS = ["reveal", "reveal", "reveal", "mask", "unmask", "saveload", "cli_reveal"]
+OPS = ["reveal", "reveal", "reveal", "mask", "unmask", "saveload", "cli_reveal", "cli_train"]
 
 
 @st.composite
@@ -83,7 +84,7 @@ def exhaustive(tier):
         for i in range(6 + v):
             rows.append({"s": ["a", "d", "c", "e"][i % (3 + v % 2)], "p": "u%d" % (i % 3), "t": ["t%d" % (i % 5), "t%d" % ((i + 2) % 6)], "d": [1.0, [2.0, 4.0][i % 2]], "o": 0.5})
         sc = {"arity": 2, "control": "ctl", "rows": rows, "observed": ["obs0", "obs1"], "ns": 5, "nt": 12, "layout": None}
-        ops = [{"op": "saveload_xproc", "stage": "train", "picks": [v]}, {"op": "reveal", "stage": "train", "picks": [0]}, {"op": "saveload_xproc", "stage": "train", "picks": [v + 1]}, {"op": "saveload_xproc", "stage": "test", "picks": [v + 2]}, {"op": "mask", "stage": "train", "picks": [1]}]
+        ops = [{"op": "saveload_xproc", "stage": "train", "picks": [v]}, {"op": "reveal", "stage": "train", "picks": [0]}, {"op": "cli_train", "stage": "train", "picks": [v]}, {"op": "saveload_xproc", "stage": "train", "picks": [v + 1]}, {"op": "saveload_xproc", "stage": "test", "picks": [v + 2]}, {"op": "mask", "stage": "train", "picks": [1]}]
         yield {"screen": sc, "fraction": [1.0, 0.5][v % 2], "seed": 100 + v, "ops": ops, "theta": {"kind": "additive", "alpha": 0.1, "precision": 2.0}}
     # simulations whose name tables cross 2**8, 2**15, 2**16 entries while the last names (the highest ids) occur in held-out
     # experiments only: the training screen's rows then stay below the boundary, its mappings do not
@@ -327,6 +328,36 @@ def check_case(case):
                 ok_, text_ = xproc.python("from batchie.data import Screen\nScreen.load_h5(params['src']).save_h5(params['dst'])\n", 700 + 13 * op["picks"][0], src=a, dst=b)
                 require(ok_, "saveload_xproc.failed", lambda: "loading and saving the stage's archive in another process failed: %s" % text_[-500:])
                 s = Screen.load_h5(b)
+            elif kind == "cli_train":
+                # a posterior sample learned on this stage by the train_model command is the one a direct training on the stage's
+                # observed part (with the stage's own ids) gives: same seed, same parameters
+                if not bool(np.any(np.asarray(s.observation_mask))):
+                    continue
+                from batchie import sampling
+                from batchie.core import ThetaHolder
+                from batchie.models.sparse_combo import SparseDrugCombo
+                from vf.cli import warm
+
+                warm()
+                a, o = tmp.fresh("stage_for_training.h5"), tmp.fresh("thetas.h5")
+                paths += [a, o]
+                s.save_h5(a)
+                seed_ = 1 + op["picks"][0]
+                st_ = np.random.get_state()
+                try:
+                    with np.errstate(all="ignore"):
+                        run_cli("train_model", ["--data", a, "--model", "SparseDrugCombo", "--model-param", "n_embedding_dimensions=1", "--n-samples", 2, "--n-burnin", 1, "--thin", 1, "--n-chains", 1, "--chain-index", 0, "--seed", seed_, "--output", o])
+                        got_ = ThetaHolder.load_h5(o)
+                        m_ = SparseDrugCombo(experiment_space=ExperimentSpace.from_screen(s), n_embedding_dimensions=1)
+                        m_.add_observations(s.subset_observed())
+                        ref_ = sampling.sample(model=m_, results=ThetaHolder(n_thetas=2), seed=seed_, n_chains=1, chain_index=0, n_burnin=1, thin=1)
+                finally:
+                    np.random.set_state(st_)
+                for j_, (x_, y_) in enumerate(zip(got_.thetas, ref_.thetas)):
+                    dx, dy = dict(x_.private_parameters_dict()), dict(y_.private_parameters_dict())
+                    for k_ in sorted(dy):
+                        require(np.asarray(dx[k_]).shape == np.asarray(dy[k_]).shape and np.allclose(np.asarray(dx[k_], dtype=float), np.asarray(dy[k_], dtype=float), rtol=1e-6, atol=1e-7, equal_nan=True), "cli_train.learned_on_stage_ids", lambda: "%s stage: sample %d learned by train_model differs in %s from a direct training on the stage's observed experiments with the stage's ids (seed %d): %r vs %r" % (name, j_, k_, seed_, np.asarray(dx[k_]).tolist()[:4], np.asarray(dy[k_]).tolist()[:4]))
+                continue
             elif kind == "mask":
                 s = mask_screen(s)
             elif kind == "unmask":
